@@ -15,11 +15,14 @@ import SparkxVerif.Core.FilterProto
 namespace SparkxVerif.Rd.Proto
 open SparkxVerif.Proto SparkxVerif.Rd SparkxVerif.Flt
 
+/-- text-mode reading: the lines (split at '\n', on the character list — `Core/Str.lean`) and whether the last one is
+newline-terminated -/
 def fileOfText (t : String) : FileF :=
-  let pieces := t.splitOn "\n"
-  let trailing := t.endsWith "\n"
+  let cs := t.toList
+  let pieces := splitCh '\n' t
+  let trailing := cs.getLast? == some '\n'
   let ls := if trailing then pieces.dropLast else pieces
-  let ls := if t.isEmpty then [] else ls
+  let ls := if cs.isEmpty then [] else ls
   { lines := ls.map analyse, trailingNL := trailing }
 
 def sel? (s : String) : Option Sel :=
